@@ -183,6 +183,7 @@ def gen_panel(rng, tier):
         else:
             case["per_pop"] = k
         case["margin"] = k - n
+        case["route"] = rng.choice(["api", "cli"])  # validate_params directly, or through `haptools simgenotype --no_replacement`
         case["violation"] = "tooFewSamples" if k < n else None
         yield case
         want -= 1
@@ -257,7 +258,7 @@ CHECK = Check(
             name="validate_panel_size",
             theorems=["C14.validate_rejects_small_panels"],
             gen=gen_panel,
-            impl=lambda c: _c20("impl")(c),
+            impl=lambda c: _c20("impl_cli" if c.get("route") == "cli" else "impl")(c),
             model_req=lambda c: _c20("model_req")(c),
             model_obs=lambda c, r: _c20("model_obs")(c, r),
             equal=lambda a, b: _c20("equal")(a, b),
@@ -265,8 +266,8 @@ CHECK = Check(
             setup=lambda: _c20("setup")(),
             teardown=lambda x: _c20("teardown")(x),
             nontrivial=lambda c, o: C.jdump(c),
-            describe=lambda c, o: [f"smallest-population-minus-nsamples={c['margin']}", "one-population-short" if isinstance(c["per_pop"], dict) else "all-populations-equal"],
-            rule="--no_replacement runs whose reference panel holds exactly n-1, n or n+1 samples per model population (n = simulated samples): n-1 must be refused by validate_params before anything is simulated, n and n+1 accepted (a later 'No available sample' is an error, never reuse)",
+            describe=lambda c, o: [f"smallest-population-minus-nsamples={c['margin']}", "one-population-short" if isinstance(c["per_pop"], dict) else "all-populations-equal", "route=" + c.get("route", "api")],
+            rule="--no_replacement runs whose reference panel holds exactly n-1, n or n+1 samples per model population (n = simulated samples): half of the cases through the Python entry points, half through the `haptools simgenotype --no_replacement` command line; n-1 must be refused before anything is simulated, n and n+1 accepted (a later 'No available sample' is an error, never reuse)",
         ),
     ],
     trusted=["Python list/tuple semantics of haps_used"],
